@@ -32,6 +32,14 @@ A *document* is a JSON-able dict
 Levels follow LaTeX: part -1, chapter 0 (book/report only), section 1,
 subsection 2, subsubsection 3, paragraph 4, subparagraph 5.
 
+Contents: leaves and marker words (walk_leaves, fill_benign, benign_twin) -- LaTeX
+source (to_latex, tex_escape) -- placement model (Placement, effective_split,
+index_level) -- counter model (numbers, unit_numbers, label_sites, ref_sites) --
+Hypothesis strategies (doc_strategy, finish) -- output reader (Scan over
+html.parser, marker_stream, anchors_after_markers, element_text_by_id,
+links_with_context, assign_files).  The harness that actually runs plasTeX is
+models/renderrun.py.
+
 The model part answers, from the AST alone:
   * which units open an output file for a split level (C13 statement: "each
     sectioning unit at or above the split level is written to its own file,
